@@ -5,15 +5,25 @@
 (* of the walk but not of the script (the real GC decides on its own).          *)
 EXTENDS ConcurrencyP, TLC, Json
 CONSTANT GenDepth
-VARIABLES hist, used
-GInit == Init /\ hist = <<>> /\ used = {}
+VARIABLES hist, lastReq, endedX
+GInit == Init /\ hist = <<>> /\ lastReq = [t \in Txn |-> -1] /\ endedX = {}
+
 \* every third step is a clock step (or a reclaim that the clock is waiting for), so that walks reach expiry
 Tick == (\E d \in Steps : Advance(d)) \/ (\E t \in Txn, q \in Quota : Expire(t, q))
-\* every request of a walk carries a fresh transaction id (whatever the real engine answers, the script stays legal)
+
+\* A transaction id is presented again only when its previous transaction is certainly over whatever the real
+\* engine answered (the script must stay legal for the real run): it was ended explicitly (response / proxy
+\* error) after its request, or it was requested more than max(expiry + GC period) ticks ago.
+MaxEG == CHOOSE m \in {Expiry[q] + GcPeriod[q] : q \in Quota} : \A q \in Quota : Expiry[q] + GcPeriod[q] <= m
+IdFree(t) == lastReq[t] = -1 \/ t \in endedX \/ now > lastReq[t] + MaxEG
 GNext == /\ IF Len(hist) % 3 = 2 THEN Tick ELSE Next
          /\ hist' = Append(hist, last')
-         /\ IF last'.ev = "req" THEN last'.t \notin used /\ used' = used \cup {last'.t} ELSE used' = used
-GSpec == GInit /\ [][GNext]_<<vars, hist, used>>
+         /\ IF last'.ev = "req"
+            THEN IdFree(last'.t) /\ lastReq' = [lastReq EXCEPT ![last'.t] = now] /\ endedX' = endedX \ {last'.t}
+            ELSE IF last'.ev \in {"resp", "err"} /\ lastReq[last'.t] # -1
+            THEN endedX' = endedX \cup {last'.t} /\ UNCHANGED lastReq
+            ELSE UNCHANGED <<lastReq, endedX>>
+GSpec == GInit /\ [][GNext]_<<vars, hist, lastReq, endedX>>
 Emit == (Len(hist) = GenDepth) => PrintT(<<"VH", ToJson(hist)>>)
 
 \* the configuration of the walk (checks/c02.py GEN_CONFIG is the same object for the executor)
